@@ -143,6 +143,7 @@ def run(tier, seed):
         cov.update(u)
         return cov
     spec['extra'] = extra
+    spec = E.with_master_stage(spec, PID, tier, seed)
     core.standard_run(PID, tier, seed, spec)
 
 
@@ -150,6 +151,8 @@ def replay_case(case):
     if isinstance(case, dict) and case.get('engine') == 'E-units':
         from . import c01units
         return c01units.replay_case(case)
+    if isinstance(case, dict) and case.get('engine') == 'E-master-probe':
+        return E.replay(PID, case)
     if isinstance(case, dict) and case.get('engine') == 'E-master':
         from .. import emaster
         hits = []
